@@ -88,6 +88,9 @@ class Row(tuple):
             # previous comments on the below line suggested it had a bug, but didn't
             # say what the bug was - this is about 25% faster than the pure Python version
             # There is a lot of testing on this function and it hasn't found any bugs.
+            if type(data) is not dict:
+                # the compiled helper only takes exact dictionaries, not subclasses of dict
+                data = dict(data)
             data = extract_dict_columns(data, cls._fields)  # type:ignore
         instance = super().__new__(cls, data)  # type:ignore
         return instance
